@@ -155,7 +155,7 @@ pub fn run(prop: &str, outdir: &str, seed: u64, thorough: bool) -> serde_json::V
     let mut cases = vec![]; let mut cj = vec![]; let mut flags: Vec<String> = vec![]; let mut boundary: Vec<String> = vec![];
     for i in 0..n {
         let mut r = rng.fork();
-        if i % 10 == 9 && !(prop == "C07" && i < 24) { data = gen_data(&mut r, &w.specs, 12); db = Db::new(&w.specs, &data); }
+        if i % 10 == 9 && !(prop == "C07" && i < 30) { data = gen_data(&mut r, &w.specs, 12); db = Db::new(&w.specs, &data); }
         let depth = r.range(0, 2) as u32;
         // joins whose ON clause is a disjunction or a conjunction around an equality on a unique key
         let on_shapes = ["SELECT u.id AS i, o.id AS j FROM users AS u JOIN orders AS o ON u.id = o.user_id OR u.age >= 18", "SELECT u.id AS i, o.id AS j FROM orders AS o JOIN users AS u ON o.user_id = u.id OR o.amount >= 0",
@@ -181,6 +181,13 @@ pub fn run(prop: &str, outdir: &str, seed: u64, thorough: bool) -> serde_json::V
                     boundary.push(format!("SELECT {} FROM {} AS t", items.join(", "), t));
                 }
             }
+            // aggregates over columns whose declared type is not convex (a 0 / 1 flag, an IN list, two ranges): the result lies between the values
+            for q in ["SELECT AVG(t.age) AS i, SUM(t.age) AS s, MIN(t.age) AS lo, MAX(t.age) AS hi FROM users AS t WHERE t.age IN (18, 90, 50)",
+                "SELECT t.city AS c, AVG(t.age) AS i FROM users AS t WHERE t.age IN (18, 90) OR t.age > 80 GROUP BY t.city",
+                "SELECT AVG(o.amount) AS i, STDDEV(o.amount) AS d, VARIANCE(o.amount) AS v FROM orders AS o WHERE o.amount IN (0, 500, 250.5)",
+                "SELECT AVG(CASE WHEN t.age > 30 THEN 1 ELSE 0 END) AS i, SUM(CASE WHEN t.age > 30 THEN 1 ELSE 0 END) AS s FROM users AS t",
+                "SELECT o.status AS c, AVG(CASE WHEN o.amount > 100 THEN 10 ELSE 0 END) AS i, COUNT(o.amount) AS n FROM orders AS o GROUP BY o.status",
+                "SELECT AVG(DISTINCT t.age) AS i, SUM(DISTINCT t.age) AS s FROM users AS t WHERE t.age IN (18, 90, 50)"] { boundary.push(q.to_string()); }
         }
         if prop == "C07" && i == 0 {
             // the database the boundary queries run on holds every boundary value
